@@ -11,6 +11,18 @@ E2 = "stateless model checking: exhaustive DFS of the choice tree of RNG answers
 E3 = "explicit-state BFS over operation histories of the real object, reference-model comparison in every state"
 
 CHECKS = {
+    "C08": dict(
+        built=True,
+        category="exploration",
+        engine="E1",
+        technique=E1 + "; all small capacitated digraphs, min-cut oracle by subset enumeration",
+        text="All 531441 digraphs on 4 labelled nodes with per-pair capacity absent/1/2 (4 source/sink pairs, both adjacency "
+        "orders), all unit graphs with <=7 arcs on 5 and 6 nodes (the 6-node space holds the smallest inputs on which the pinned "
+        "tree was wrong), ordered arc lists with parallel arcs, zero capacities and non-integer labels; the returned flow is "
+        "checked for capacity, conservation, sink inflow = objective and objective = exact min cut.",
+        note="Trusts: max-flow/min-cut theorem and a 15-line subset-enumeration cut oracle. Bound: <=6 nodes, capacities <=2.",
+        ref="2/C08",
+    ),
     "C10": dict(
         built=True,
         category="exploration",
